@@ -271,7 +271,7 @@ func propC08(o *out, r *rng, thorough bool) {
 		"9223372036854775808ns", "-9223372036854775807ns", "-9223372036854775808ns", "15250w1d23h47m16s854ms775u807ns", "15251w", "2562047h47m16s854ms775u807ns",
 		"", "-", "1", "s", "1x", "1n", "1nss", "1.5s", "1 s", "1s ", "+1s", "--1s", "1s-1s", "１s", "1µs", "1µ", "1us", "1mss", "1msm", "0s", "00000s", "0w0d", "1h1h", "9999999999999999999999s",
 		// leading zeros are decimal digits, not a base prefix; a bare m after the two-byte µ; digits only
-		"010m", "0100ms", "1m08s", "08s", "09h", "007d", "0x10s", "0b1s", "0o7s", "1_0s", "1µ2m", "5µ1m", "7µ1m", "1µm", "µm", "1µ1µ1m", "3µ4ms", "1e3s", "+5m"} {
+		"h1", "s10", "h1m30", "-w1d1", "m", "ms5", "1h2", "1h m", "h", "1hh1", "µ1", "u1u", "1s2m3", "ns1ns", "d1h1", "010m", "0100ms", "1m08s", "08s", "09h", "007d", "0x10s", "0b1s", "0o7s", "1_0s", "1µ2m", "5µ1m", "7µ1m", "1µm", "µm", "1µ1µ1m", "3µ4ms", "1e3s", "+5m"} {
 		c08Parse(o, w, "witness")
 	}
 	// lengths at which a fixed buffer would end: digits (leading zeros keep the value small), components, and both
@@ -330,6 +330,20 @@ func propC08(o *out, r *rng, thorough bool) {
 	for _, u := range durUnits {
 		for _, k := range []int64{1, -1, 2, 59, 999, 1001, math.MaxInt64 / u.ns, -(math.MaxInt64 / u.ns), math.MaxInt64/u.ns - 1} {
 			fb = append(fb, k*u.ns)
+		}
+	}
+	// a whole number of a unit plus or minus a remainder far below it (the difference a rounded computation loses)
+	for _, u := range durUnits {
+		for _, k := range []int64{1, 1000, 86400 * 200, 1 << 33, 9000000000, math.MaxInt64/u.ns - 2, math.MaxInt64 / u.ns / 3} {
+			if k > math.MaxInt64/u.ns-1 || k < 1 {
+				continue
+			}
+			for _, delta := range []int64{1, -1, 7, 999, 1000, 999999, 1000000, 999999999} {
+				if delta >= u.ns && u.ns > 1 {
+					continue
+				}
+				fb = append(fb, k*u.ns+delta, -(k*u.ns + delta))
+			}
 		}
 	}
 	for _, d := range fb {
